@@ -86,17 +86,26 @@ impl Group for Negotiation {
         "c06.neg"
     }
     fn rule(&self) -> &'static str {
-        "handle_cache on handler responses: bodies {0,1,49,50,51, 4 KiB zeros, 4 KiB pseudo-random, 300 KiB} x 12 content types x Accept-Encoding strings from the grammar (and absent) x preferred {zstd, br, gzip} x handler compress preference {full, none} x cached/uncached handler; each entry is requested three times (the 2nd/3rd reuse the memoised bytes), for half of the cases after 1-2 requests of other clients with other Accept-Encoding values on the same entry (whose memoised variants must not leak into this client's answer), and, for a sample, by 24 concurrent requests on a cold entry; status (200/406) and content-encoding compared with the model; oracle: a standard decoder for the labelled algorithm returns exactly the identity body as a complete stream, the coding is identity or listed with q != 0; non-trivial = the body is >= 50 bytes and an Accept-Encoding header is present"
+        "handle_cache on handler responses: bodies {0,1,49,50,51, 4 KiB, 300 KiB; zeros, a regular pattern, incompressible noise} x 12 content types x Accept-Encoding strings from the grammar (and absent) x preferred {zstd, br, gzip} x handler compress preference {full, none} x cached/uncached handler; each entry is requested three times (the 2nd/3rd reuse the memoised bytes), for half of the cases after 1-2 requests of other clients with other Accept-Encoding values on the same entry (whose memoised variants must not leak into this client's answer), and, for a sample, by 24 concurrent requests on a cold entry; status (200/406) and content-encoding compared with the model; oracle: a standard decoder for the labelled algorithm returns exactly the identity body as a complete stream, the coding is identity or listed with q != 0; non-trivial = the body is >= 50 bytes and an Accept-Encoding header is present"
     }
     fn parallel(&self) -> bool {
         false
     }
     fn generate(&self, ctx: &Ctx, rng: &mut Rng) -> Vec<String> {
         let n = if ctx.mode == Mode::Quick { 1500 } else { 20_000 };
-        (0..n)
+        // large incompressible bodies through each encoder (whole body in, whole body out)
+        let mut fixed: Vec<String> = Vec::new();
+        for (ae, pref) in [("gzip", "gzip"), ("br", "br"), ("zstd", "zstd"), ("gzip", "zstd"), ("br, gzip;q=0.5", "gzip")] {
+            for len in ["300000n", "70000n", "1048593n"] {
+                fixed.push(format!("c06.neg 1 {len} {} {} {pref} 1 0 []", hex(b"text/html"), hex(ae.as_bytes())));
+            }
+        }
+        fixed.into_iter().chain((0..n)
             .map(|i| {
                 let len = *rng.pick(&[0usize, 1, 49, 50, 51, 4096, 4097, 300_000, 60, 500, 4096, 1000, 777, 51]);
-                let seed = if rng.chance(1, 2) { "z" } else { "r" };
+                // z = zeros, r = a regular pattern, n = noise (incompressible: the encoded form is as large as the body,
+                // far beyond any internal buffer of the encoders)
+                let seed = *rng.pick(&["z", "r", "n", "n"]);
                 let ty = if rng.chance(1, 2) { *rng.pick(&["text/html", "application/json", "image/svg+xml", "text/plain; charset=utf-8"]) } else { *rng.pick(&TYPES) };
                 let ae = if rng.chance(1, 8) { "none".to_owned() } else if rng.chance(1, 4) { hex(rng.pick(&["br", "gzip", "zstd", "br, gzip;q=0", "gzip, br;q=0", "zstd;q=0, br", "identity", "br;q=0.5, identity;q=0"]).as_bytes()) } else { hex(gen_ae(rng).as_bytes()) };
                 let pref = *rng.pick(&["zstd", "br", "gzip"]);
@@ -109,7 +118,7 @@ impl Group for Negotiation {
                     (0..rng.range(1, 3)).map(|_| if rng.chance(2, 3) { hex(rng.pick(&["gzip", "br", "zstd", "gzip, br", "br, zstd", "identity", "gzip;q=0.5, zstd"]).as_bytes()) } else { hex(gen_ae(rng).as_bytes()) }).collect()
                 } else { vec![] };
                 format!("c06.neg {hc} {len}{seed} {} {ae} {pref} {cached} {conc} {}", hex(ty.as_bytes()), list(warm))
-            })
+            }))
             .collect()
     }
     fn driver_line(&self, line: &str) -> String {
@@ -126,7 +135,7 @@ impl Group for Negotiation {
     fn run_impl(&self, _ctx: &Ctx, line: &str) -> String {
         let p: Vec<&str> = line.split(' ').collect();
         let len: usize = p[2].chars().filter(|c| c.is_ascii_digit()).collect::<String>().parse().unwrap();
-        let body: Vec<u8> = if p[2].ends_with('z') { vec![b'0'; len] } else { gen_bytes(len, 17) };
+        let body: Vec<u8> = if p[2].ends_with('z') { vec![b'0'; len] } else if p[2].ends_with('n') { gen_noise(len, 17) } else { gen_bytes(len, 17) };
         let ty = String::from_utf8(unhex(p[3]).unwrap()).unwrap();
         let hc = p[1] == "1";
         let cached = p[6] == "1";
